@@ -13,5 +13,13 @@ LEVEL = "proof"
 
 
 def run(repo, chk, tier):
+    from ..model import AnalysisError
+
     check_bw_tables(repo, chk, tier)
-    check_kernels(repo, chk, tier)
+    try:
+        check_kernels(repo, chk, tier)
+    except AnalysisError as e:
+        if not chk.violations:
+            raise
+        # a table violation already explains why a kernel degenerates (e.g. a zero polynomial)
+        chk.info("kernel clauses not completed after the table violation(s): %s" % e)
